@@ -34,7 +34,7 @@ def gen_cases(ck):
                       "sites": int(ck.rng.integers(20, 46)), "subset": None, "min_ridge": 0.005, "mobius": mob,
                       "strength": float(ck.rng.uniform(0.4, 2.0)), "kmin": 1 if mob else 0, "kmax": int(ck.rng.choice([3, 9])),
                       "param_mode": "random", "noise": float(ck.rng.choice([0.0, 0.0, 0.02])), "fit": ["dlite", "taubinSVD"][int(ck.rng.integers(2))],
-                      "kind": kind, "t_angle": float(ck.rng.uniform(0, 2 * math.pi)), "t_scale": float(10.0 ** ck.rng.uniform(-3, 3)),
+                      "kind": kind, "t_angle": float(ck.rng.uniform(0, 2 * math.pi)), "t_scale": float(10.0 ** ck.rng.uniform(-5, 3)),
                       "t_shift": [float(ck.rng.normal() * 10.0 ** ck.rng.uniform(0, 3)), float(ck.rng.normal() * 10.0 ** ck.rng.uniform(0, 3))]})
     for i in range(4 if ck.tier == "quick" else 16):
         # axis-parallel lattices of straight two-point interfaces: tangents with exactly vanishing components in the original
@@ -116,6 +116,25 @@ def run_static_case(ck, case, reqs, pending):
         flagged = d2 if d2 is not None else True     # without a closed form (noisy tissue) the sign forcing cannot be excluded
         ck.fail("the assembled coefficient pairs rotate / reflect with the tissue", f"max deviation {worst:.3g} at {worst_key} (tolerance {ctol:.3g})",
                 case, signature=SIG_D2 if flagged and worst < 0.2 else None)
+    # the turning of every physical interface (the right-hand side of its pressure equation is tension x turning) is a pure
+    # number: unchanged by the transformation up to the sign convention, and by a change of the length unit by 1e-4
+    def turnings(ph_):
+        out = {}
+        for be in ph_.frame.internal_big_edges:
+            rg = ph_.ridge_of([int(x) for x in be.get_vertices_ids()])
+            if rg is not None:
+                out[rg] = abs(float(impl.quiet(be.calculate_total_curvature, normalized=False)))
+        return out
+    ta, tb = turnings(pa), turnings(pb)
+    small = build(case, 0.0, 1e-4, [0.0, 0.0], False)
+    ts = turnings(physical.run_static(small, fit=fit, solve=False)) if small is not None else ta
+    for label, tt in (("the transformed tissue", tb), ("the tissue in a length unit 1e-4 times smaller", ts)):
+        dturn = max((abs(tt[r] - ta[r]) / (1.0 + abs(ta[r])) for r in ta if r in tt), default=0.0)      # turnings are pure numbers of order one
+        if set(tt) != set(ta) or dturn > 1e-6:
+            ck.fail("the pressure of every physical cell is unchanged (turning of every interface, the right-hand side of its pressure equation)",
+                    f"{label}: relative deviation {dturn:.3g}", case)
+            break
+    ck.count("turnings_compared")
     if pa.wellposed and pb.wellposed:
         n = len(pa.tension)
         maxt = max(abs(v) for v in pa.tension.values())
@@ -145,6 +164,25 @@ def run_static_case(ck, case, reqs, pending):
     reqs.append({"op": "fmatrix", "mesh": mesh_json(pb.frame.vertices, pb.frame.edges, pb.frame.cells),
                  "centers": [[rat(x), rat(y)] for x, y in cs], "cos": None, "ignoreFour": False})
     pending.append((case, pb))
+    # the translation the package performs itself: the frame that has just been solved is put, with a second frame, into a solver
+    # object with cm=True (every vertex is shifted in place by the rounded centre of mass) and solved again
+    if case.get("recentre", True) and pb.tension is not None and not noisy:
+        try:
+            other = build(case, ang, scl, sh, refl)
+            f2 = impl.quiet(fs.ForSys, {0: pb.frame, 1: impl.make_frame(other.bm, frame_id=1, time=1.0)}, cm=True)
+            if f2.mesh.mapping[0] is not None:
+                impl.quiet(f2.build_force_matrix, when=0, circle_fit_method=fit)
+                impl.quiet(f2.solve_stress, when=0)
+                again = {rg: float(pb.frame.forces[k]) for k, rg in enumerate(pb.ridges)}
+                if pb.wellposed:
+                    tolr = (1e-8 + 2 * ctol * math.sqrt(len(again)) * max(abs(v) for v in pb.tension.values())) / pb.sigma[0]
+                    dr = max(abs(again[r] - pb.tension[r]) for r in again)
+                    if dr > tolr:
+                        ck.fail("the static tension of every physical interface is unchanged (frame re-centred in place by ForSys(cm=True) and solved again)",
+                                f"max deviation {dr:.3g} (tolerance {tolr:.3g})", case, signature=SIG_D2 if d2 else None)
+                    ck.count("recentred_and_solved_again")
+        except fs.exceptions.DifferentTissueException:
+            ck.count("recentre_rejected_by_tracker")
     ck.case(case, nontrivial=True, sample=({"case": case, "unknowns": len(pa.tension), "worst_coefficient_deviation": worst} if len(ck.samples) < 3 else None))
     return pa, pb
 
